@@ -156,6 +156,37 @@ def peel_clone(e):
         return e
 
 
+# ------------------------------------------------------------------ divergence
+
+PANIC_PREFIXES = ("core::panicking::", "std::rt::begin_panic", "std::rt::panic", "core::panic::", "std::process::exit",
+                  "std::process::abort")
+
+
+def is_panic_call(n):
+    return isinstance(n, dict) and n.get("k") == "Call" and (norm_path(n.get("callee")) or "").startswith(PANIC_PREFIXES)
+
+
+def panic_macro(n):
+    """user-facing macro name of a panic call: unreachable / panic / assert / todo / unimplemented ..."""
+    for m in reversed(n.get("mac", []) or (n.get("f", {}).get("mac", []))):
+        if not m.startswith("$crate") and not m.startswith("desugar"):
+            return m
+    return "panic"
+
+
+def diverges(e):
+    """does evaluating e always end in a panic (unreachable!/panic!/...)"""
+    e = peel(e)
+    while isinstance(e, dict) and e.get("k") == "Block":
+        if e.get("e") is not None:
+            e = peel(e["e"])
+        elif e["stmts"] and e["stmts"][-1].get("k") in ("Semi", "ExprStmt"):
+            e = peel(e["stmts"][-1]["e"])
+        else:
+            return False
+    return is_panic_call(e)
+
+
 # ------------------------------------------------------------------ patterns
 
 
